@@ -444,12 +444,12 @@ theorem signer_checked_never_panics (t : Tables) (priv pub : Bool) (o : Signer.S
 theorem signer_checked_full : C12_signer_full Signer.checked :=
   fun t priv pub o script _ => signer_checked_never_panics t priv pub o script
 
-/-- `Signer` succeeds only when EVERY exchange it made was accepted — one to three GetAttributes
+/-- `Signer` succeeds only when EVERY exchange it made was accepted — two GetAttributes
     responses, then one Get response, each a single successful item carrying the response payload of the
     requested operation — and the key material was parsed (checked variant: and is of the announced kind). -/
 theorem signer_ok_only_from_accepted (v : Signer.Variant) (t : Tables) (priv pub : Bool) (script : List Signer.Answer)
     (s : Signer.SignerVal) (rest : List Signer.Answer) (h : Signer.signer v t priv pub script = .ok (s, rest)) :
-    ∃ gas g, script = gas ++ g :: rest ∧ 1 ≤ gas.length ∧ gas.length ≤ 3 ∧
+    ∃ gas g, script = gas ++ g :: rest ∧ gas.length = 2 ∧
       (∀ a ∈ gas, Signer.Accepted Signer.opGetAttributes a) ∧ Signer.Accepted Signer.opGet g ∧ g.key = some s.key ∧
       (v.checkedKey = true → Signer.keyMatches s.alg s.key = true) :=
   Signer.signer_ok v t priv pub script s rest h
